@@ -64,8 +64,12 @@ type c12Cfg struct {
 	endpoint int
 	artifact bool // the AuthnRequest asks for its response over HTTP-Artifact (what samlsp does with UseArtifactResponse)
 	idpFmts  int  // NameIDFormat entries the IdP's metadata lists: none (0), transient only (1), emailAddress + persistent (2), unspecified (3) - what the SP asks for is what it was configured to ask for
+	method   int  // with sign: which of c12Methods signs (0 = rsa-sha256, the usual one); the ECDSA ones come with an EC key
 	zone     int  // the library clock returns the same instant in UTC (0), in -08:00 (1), in +05:30 (2): saml.TimeNow = time.Now on such a machine
 }
+
+var c12Methods = []string{dsig.RSASHA256SignatureMethod, dsig.RSASHA1SignatureMethod, dsig.RSASHA384SignatureMethod, dsig.RSASHA512SignatureMethod,
+	dsig.ECDSASHA1SignatureMethod, dsig.ECDSASHA256SignatureMethod, dsig.ECDSASHA384SignatureMethod, dsig.ECDSASHA512SignatureMethod}
 
 var c12Zones = []*time.Location{time.UTC, time.FixedZone("", -8*3600), time.FixedZone("", 5*3600+1800)}
 
@@ -78,6 +82,9 @@ func (c c12Cfg) String() string {
 	}
 	if c.idpFmts != 0 {
 		s += "/idp-lists-nameid-formats=" + []string{"none", "transient", "email+persistent", "unspecified"}[c.idpFmts]
+	}
+	if c.method != 0 {
+		s += "/method=" + shortAlg(c12Methods[c.method])
 	}
 	if c.zone != 0 {
 		s += "/clock-zone=" + []string{"UTC", "-08:00", "+05:30"}[c.zone]
@@ -98,7 +105,10 @@ func c12SP(cf c12Cfg) (*saml.ServiceProvider, string, string) {
 	sso, slo := c12URLs(cf)
 	o := harness.SPOpt{IDPSSOURL: sso, IDPSLOURL: slo, NoEntityID: !cf.entity}
 	if cf.sign {
-		o.SignMethod = dsig.RSASHA256SignatureMethod
+		o.SignMethod = c12Methods[cf.method]
+		if strings.Contains(o.SignMethod, "ecdsa") {
+			o.SPKey = "spec256"
+		}
 	}
 	sp := harness.NewSP(o)
 	sp.AuthnNameIDFormat = c12NIDFormats[cf.nidFmt]
@@ -260,6 +270,24 @@ func runC12(c *core.Ctx) {
 			}
 		}
 	})
+
+	// every signature method the SP can be configured with: the request still reaches this library's IdP whole
+	c.Group("signature-methods-toward-the-idp")
+	for mi := 1; mi < len(c12Methods); mi++ {
+		for _, msg := range c12Messages {
+			for pi, pr := range []string{"", "rs", "a b&c=d#e+f%"} {
+				for _, ep := range []int{0, 1} {
+					mi, msg, pr, pi, ep := mi, msg, pr, pi, ep
+					cf := c12Cfg{sign: true, entity: true, method: mi, endpoint: ep}
+					key := fmt.Sprintf("sigmethod/%s/%s/probe=%d", cf, msg, pi)
+					c.Case(key, func(t *core.T) {
+						t.NonTrivial()
+						c12One(t, getSP, cf, msg, pr, key)
+					})
+				}
+			}
+		}
+	}
 
 	c12IDs(c)
 	c12Held(c, getSP)
